@@ -20,7 +20,9 @@ RULE = ("WRITE: an instrumented statement generator logs PULL(i) before yielding
         "frame sizes 1..64, logical type FLAT_* or left UNSPECIFIED. From a reference run to the end the reference decoder "
         "gives the row index r_i at which statement i completes. Clause 1: at every PULL(i), i>=2: r_(i-1) - rows already "
         "handed over < frame_size. Clause 2: when the consumer stops after frame j, #PULL == #statements in frames 1..j; no "
-        "PULL before the first frame is requested. PARSE: valid delimited streams are delivered through a source that stalls "
+        "PULL before the first frame is requested. The flat_stream_to_file entry points are run against an unbuffered output that "
+        "logs WRITE events on the same clock: the bytes of every complete frame must have reached it before the next statement "
+        "is pulled. PARSE: valid delimited streams are delivered through a source that stalls "
         "forever after frame boundary j (every j): a raw non-seekable object, a BufferedReader around it (the documented "
         "'buffered binary stream', e.g. socket.makefile('rb')), a BufferedRWPair (socket.makefile('rwb')) and an "
         "HTTPResponse-shaped BufferedIOBase, and a real socketpair whose writer thread goes idle; flat and "
@@ -170,6 +172,74 @@ def check_write(integ: str, cfg: dict, stmts: list, entry: str, ks: list):
     return ws
 
 
+class LoggedRawOut(io.RawIOBase):
+    """Unbuffered output (open(..., buffering=0), socket.makefile('wb', 0)) that logs WRITE events on the case's clock."""
+
+    def __init__(self, log: list):
+        super().__init__()
+        self.log = log
+        self.total = 0
+
+    def writable(self):
+        return True
+
+    def write(self, b):
+        self.total += len(b)
+        self.log.append(("WRITE", len(b), self.total))
+        return len(b)
+
+
+def check_file_sink(integ: str, cfg: dict, stmts: list):
+    """flat_stream_to_file: every frame that is due must have REACHED THE OUTPUT before the next statement is pulled."""
+    mod = gser if integ == "generic" else rser
+    conv = T.stmt_to_generic if integ == "generic" else T.stmt_to_rdflib
+    # reference: frame sizes (bytes incl. length prefix) and the statement that completes each frame
+    _log, ref_frames, _ = write_run(integ, cfg, stmts, "flat_stream_to_frames", None)
+    data = b"".join(wire.enc_varint(len(f)) + f for f in ref_frames)
+    res = refdec.decode(wire.dec_stream(data, True))
+    if res.violation is not None:
+        return []
+    per_frame = [sum(1 for e in evs if e[0] == "stmt") for evs in res.per_frame]
+    if sum(per_frame) != len(stmts):
+        return []
+    sizes = [len(wire.enc_varint(len(f)) + f) for f in ref_frames]
+    # after statement i has been consumed, frames 1..done(i) are complete
+    done_after = {}
+    cum_st, cum_bytes, j = 0, 0, 0
+    bytes_after = {0: 0}
+    for i in range(1, len(stmts) + 1):
+        while j < len(per_frame) and cum_st + per_frame[j] <= i:
+            cum_st += per_frame[j]
+            cum_bytes += sizes[j]
+            j += 1
+        bytes_after[i] = cum_bytes
+    log: list = []
+
+    def source():
+        for i, st in enumerate(stmts, 1):
+            log.append(("PULL", i))
+            yield conv(st)
+
+    out = LoggedRawOut(log)
+    try:
+        mod.flat_stream_to_file(source(), out, options=pj.make_options(cfg))
+    except Exception as e:  # noqa: BLE001
+        return [{"clause": "serializer-raised", "summary": f"{type(e).__name__}: {e}"}]
+    written = 0
+    for ev in log:
+        if ev[0] == "WRITE":
+            written = ev[2]
+        elif ev[1] >= 2:
+            due = bytes_after[ev[1] - 2]      # frames completed by statement i-2 are certainly due at PULL(i)
+            if written < due:
+                return [{"clause": "frames-not-written-before-next-pull", "pull": ev[1], "written": written, "due": due,
+                         "summary": f"{integ} flat_stream_to_file to an unbuffered output, frame_size={cfg['frame_size']}: when statement "
+                                    f"{ev[1]} was pulled only {written} of the {due} bytes of the frames already complete had reached the output"}]
+    if out.total != sum(sizes):
+        return [{"clause": "file-sink-bytes-differ", "summary": f"{out.total} bytes written, frames total {sum(sizes)}"}]
+    return []
+
+
 def write_case(ctx, rng):
     integ = rng.choice(["generic", "rdflib"])
     phys = rng.choice([1, 2, 3])
@@ -187,6 +257,12 @@ def write_case(ctx, rng):
     ctx.observe("write-runs", 1 + len(ks))
     ctx.observe("pull-events", len(stmts) * 2)
     ctx.observe(f"write:{integ}:phys{phys}:{'unspecified-logical' if logical == 0 else 'flat-logical'}")
+    if phys != 3 and logical != 0:
+        fs_ws = check_file_sink(integ, cfg, stmts)
+        ctx.observe("file-sink-runs")
+        for w in fs_ws:
+            w["file_sink"] = True
+        ws = ws + fs_ws
     for w in ws:
         if w["clause"] == "serializer-raised":
             ctx.observe("serializer-raised (not judged here)")
@@ -387,6 +463,8 @@ def replay(w: dict):
         cfg = w["cfg"]
         cfg["preset"] = tuple(cfg["preset"])
         stmts = list(T.from_json(w["stmts"]))
+        if w.get("file_sink"):
+            return next(iter(check_file_sink(w["integration"], cfg, stmts)), None)
         for x in check_write(w["integration"], cfg, stmts, w["entry"], w["ks"]):
             if x["clause"] == w["clause"]:
                 return x
